@@ -2,8 +2,8 @@ CONSTANTS
   Fam = "mac"
   NM = 1
   KindSet = {"f1", "f2", "fv", "f1v"}
-  MaxBody = 3
-  MaxInv = 6
+  MaxBody = 2
+  MaxInv = 5
   BodyAlpha = {"#x", "#y", "#V", "x", "a"}
   InvAlpha = {"f", "a", "(", ")", ",", "S1", "S2", "C1", "C2"}
   VarWs = TRUE
